@@ -127,7 +127,12 @@ def run_case(case):
         with File(fn, "r") as f:
             n = len(f)
             if v.check(n == len(model), "the file holds as many events as were accepted", stored=n, accepted=len(model), rejected_adds=rejected, adds=log[-4:], **cfg) and n > 0:
-                got = [h5.getrec(e) for e in f]
+                got = []
+                for k, e in enumerate(f):
+                    got.append(h5.getrec(e))
+                    prob = h5.accessor_problem(e)
+                    v.check(prob is None, "narrowed accessors (one attribute / antenna / ray) return the same data as the full ones", event=k, accessor=prob[0] if prob else None,
+                            **dict(cfg, **(prob[1] if prob else {})))
                 v.check(len(got) == n, "iteration yields every event", iterated=len(got), stored=n, **cfg)
                 for k, (m, o) in enumerate(zip(model, got)):
                     prob = h5.cmp_model(m, o, case["nant"], where="event %d of %d" % (k, n))
